@@ -21,7 +21,7 @@ EXTENDS Integers, Sequences, FiniteSets, TLC
 \* ------------------------------------------------------------------ Part 1: value classes
 StrClasses == {"plain", "numCanon", "numNeg", "numTrail0", "numLead0", "numPlus", "exp", "hex", "boolLower", "boolOther",
                "squoted", "dquoted", "bracket", "jsonObj", "mapLit", "empty", "hash", "braceNonJson", "paren", "nilText"}
-TypedClasses == {"intSmall", "intBig", "floatFrac", "floatBig", "boolTrue", "listInt", "listStr", "listNumStr", "listEmpty",
+TypedClasses == {"intSmall", "intBig", "floatFrac", "floatBig", "floatTiny", "boolTrue", "listInt", "listStr", "listNumStr", "listEmpty",
                  "mapFlat", "mapNested", "mapEmpty"}
 Classes == StrClasses \cup TypedClasses
 FieldTypes == {"string", "int", "float64", "bool", "strs", "ints", "map", "any"}
@@ -30,7 +30,7 @@ FieldTypes == {"string", "int", "float64", "bool", "strs", "ints", "map", "any"}
 FormatEffect(c) ==
   CASE c \in StrClasses -> "asIs"
     [] c = "intBig" -> "asIs"            \* %v of an int prints all digits; the loss happens when ParseAny re-reads it
-    [] c = "floatBig" -> "exponent"      \* %v prints 1e+21, which ParseAny no longer recognises as a number
+    [] c \in {"floatBig", "floatTiny"} -> "exponent"      \* %v prints 1e+21 / 1e-05, which ParseAny no longer recognises as a number
     [] OTHER -> "asIs"
 \* the expression stage runs on the text the placeholder produced: a configured value containing #{...} is evaluated
 ExprEffect(c) == IF c = "hash" THEN "evaluated" ELSE "none"
@@ -47,7 +47,7 @@ ParsedAs(c) ==
 KindOf(c) ==
   CASE c \in StrClasses -> "string"
     [] c \in {"intSmall", "intBig"} -> "int"
-    [] c \in {"floatFrac", "floatBig"} -> "float64"
+    [] c \in {"floatFrac", "floatBig", "floatTiny"} -> "float64"
     [] c = "boolTrue" -> "bool"
     [] c \in {"listInt", "listStr", "listNumStr", "listEmpty"} -> "slice"
     [] OTHER -> "map"
@@ -62,12 +62,12 @@ Alters(c, ft) ==
   \/ c = "hash" /\ ft \in TextTypes                                            \* #{...} inside a configured value is evaluated
   \/ c = "empty" /\ ft # "map"                                                 \* "" counts as missing on the value path
   \/ c = "intBig" /\ ft \in {"string", "int", "strs", "ints", "any"}            \* > 2^53: read back as float64
-  \/ c = "floatBig" /\ ft \in {"string", "int", "bool", "strs", "ints", "any"}  \* printed as 1e+21, which ParseAny takes for a string
+  \/ c \in {"floatBig", "floatTiny"} /\ ft \in {"string", "int", "bool", "strs", "ints", "any"}  \* printed as 1e+21 / 1e-05: a string for ParseAny
   \/ c \in {"numCanon", "numNeg", "intSmall"} /\ ft = "any"                     \* numbers arrive as float64 in `any`
 RoundTripIdentity(c) == \A ft \in FieldTypes : ~Alters(c, ft)
 \* C17: binding through a placeholder equals binding by prefix -- as stated it fails for the classes below (finding F10)
 KnownF10 == {"numTrail0", "numLead0", "numPlus", "boolLower", "boolOther", "squoted", "dquoted", "bracket", "jsonObj", "mapLit",
-             "empty", "hash", "intBig", "floatBig", "numCanon", "numNeg", "intSmall"}
+             "empty", "hash", "intBig", "floatBig", "floatTiny", "numCanon", "numNeg", "intSmall"}
 C17_Twin == \A c \in Classes : RoundTripIdentity(c)
 C17_TwinExceptKnown == \A c \in Classes \ KnownF10 : RoundTripIdentity(c)
 \* consistency of the case analysis: a class is altered exactly when one of the stages does something to it
